@@ -65,6 +65,25 @@ pub fn part_c02(tier: Tier) -> Part {
         wall: wall_cap(tier, 50, 2400),
     };
     explore_all(tier, &cfg, 2, &mut part);
+    // the same invariant with a hardware watchpoint in play and with the terminals detach / drop:
+    // the released process must carry no patch and no enabled debug register and must compute
+    // what it computes natively
+    let cfg_w = ExploreCfg {
+        prop: "C02",
+        depth: if tier == Tier::Quick { 3 } else { 4 },
+        oracles: crate::e2x::Oracles { projection: false, text: true, output: true, teardown: true, steps: false, bt: false, signals: false, dregs: false },
+        steps: false,
+        restart: false,
+        failing: false,
+        remove_by_num: false,
+        bp_only_before_start: false,
+        continue_after_start: true,
+        watches: 1,
+        terminals: true,
+        ext_sigint: false,
+        wall: wall_cap(tier, 25, 1200),
+    };
+    explore_all(tier, &cfg_w, 1, &mut part);
     // a step cut short by a signal must not leave its temporary breakpoints behind either
     {
         use crate::corpus::Stmt;
